@@ -271,7 +271,13 @@ pub async fn peer_task(spec: Rc<RawSpec>, rx: PipeRef, tx: PipeRef, peer_is_clie
                         continue;
                     }
                     match st.grant {
-                        Grant::Never => {}
+                        Grant::Never => {
+                            // remembered: handed out when granting resumes
+                            st.pending_grant_conn += n;
+                            if !end_stream {
+                                *st.pending_grant.entry(stream).or_insert(0) += n;
+                            }
+                        }
                         Grant::Eager => {
                             if n > 0 {
                                 let mut t = tx.borrow_mut();
@@ -454,7 +460,24 @@ pub async fn peer_task(spec: Rc<RawSpec>, rx: PipeRef, tx: PipeRef, peer_is_clie
                     st.yield_left = *n;
                 }
                 PStep::AutoAck(b) => st.auto_ack = *b,
-                PStep::SetGrant(g) => st.grant = *g,
+                PStep::SetGrant(g) => {
+                    if st.grant == Grant::Never && *g != Grant::Never {
+                        let mut t = tx.borrow_mut();
+                        if st.pending_grant_conn > 0 {
+                            t.push_bytes(&Frame::WinUp { stream: 0, inc: st.pending_grant_conn, inc_r: false }.encode());
+                            st.pending_grant_conn = 0;
+                        }
+                        let mut ids: Vec<u32> = st.pending_grant.keys().copied().collect();
+                        ids.sort();
+                        for id in ids {
+                            let n = st.pending_grant.remove(&id).unwrap_or(0);
+                            if n > 0 && !st.e_ended.get(&id).copied().unwrap_or(false) {
+                                t.push_bytes(&Frame::WinUp { stream: id, inc: n, inc_r: false }.encode());
+                            }
+                        }
+                    }
+                    st.grant = *g;
+                }
                 PStep::Respond { nth, fields, end_stream, splits } => {
                     let sid = obs.borrow().e_streams.get(*nth).copied();
                     match sid {
